@@ -340,7 +340,7 @@ pub fn run(rep: &Report) {
     );
     rep.assume("D9: the immutable evaluator answers ContextNotMutable when an assignment node is reached");
     let _ = c08::case_json;
-    let n = rep.tier.pick(300_000u64, 4_000_000);
+    let n = rep.tier.pick(300_000u64, 12_000_000);
     let depth = rep.tier.pick(4u32, 6);
     common::random_search(rep, "pairs", 110, n, &move || arb_case(depth), &|p: &Program, l| {
         l.sample(3, || vcore::serde_json::json!({"src": vcore::clip(&p.src, 120), "ctx": p.ctx.describe()}));
